@@ -9,7 +9,7 @@ variable (cfg : Cfg) (sfh : Bool)
     Struct-from-Hash rule that breaks transitivity), Iterable (no Struct / Enum arm), Data / RichData.  Tuples are inside (stage 2). -/
 def Ty.TF (t : Ty) : Prop :=
   match t with
-  | .unit | .data | .richData | .struct _ | .iterable _ => False
+  | .unit | .data | .richData | .struct _ | .iterable _ | .callable _ _ _ => False
   | .tuple ts _ => ∀ t', ∀ (_ : t' ∈ ts), Ty.TF t'
   | .array e _ => Ty.TF e
   | .hash k v _ => Ty.TF k ∧ Ty.TF v
@@ -30,7 +30,7 @@ decreasing_by
     `Ty.Frag`, because C01's fragment asks it of the content of a `Type[T]`; transitivity on it is `transD`, Proofs/LatTransDMain.) -/
 def Ty.TA (sfh : Bool) (t : Ty) : Prop :=
   match t with
-  | .unit => False
+  | .unit | .callable _ _ _ => False
   | .struct ms => sfh = false ∧ ∀ m, ∀ (_ : m ∈ ms), Ty.TA sfh m.2.2
   | .tuple ts _ => ((ts.length : Int) ≤ I64.max) ∧ ∀ t', ∀ (_ : t' ∈ ts), Ty.TA sfh t'
   | .array e _ => Ty.TA sfh e
